@@ -1,9 +1,9 @@
 #!/bin/bash
 # Thorough tier of every check in a background snapshot:
-#   vp run --with-repo --timeout 5h -- tools/bg_thorough.sh <seed>
+#   vp run --with-repo --timeout 5h -- tools/bg_thorough.sh <seed> [budget-seconds-per-check]
 # works in the snapshot (VERIF_DIR=$PWD) against the /repo snapshot ($VP_RUN_REPO), so edits to /repo do not disturb it.
 export VERIF_DIR=$PWD
 export GOFLAGS=-mod=mod GOPROXY=off GOSUMDB=off GOTOOLCHAIN=local
 sed -i "s#=> /repo#=> ${VP_RUN_REPO:-/repo}#" sim/go.mod
 export VERIF_SEED=${1:-2}
-./setup.sh && tools/run_all.sh thorough
+./setup.sh && tools/run_all.sh thorough $2
